@@ -1388,6 +1388,8 @@ func (c *checker) verifyWitnessProgram(witness [][]byte, version int, program []
 		c.tr.path("unknown-leaf-version")
 		return ErrOK
 	}
+	// (Core 28 and later exempt pay-to-anchor, OP_1 <0x4e73>, from the discouragement below; the vector
+	// files in /repo/lib/test predate that and the verdict only differs under this policy flag. Not modelled.)
 	if flags&FlagDiscourageUpgradableWitnessProg != 0 {
 		return ErrDiscourageUpgradableWitnessProgram
 	}
